@@ -197,6 +197,22 @@ def build(app):
         note('arg', m)
         raise ombott.HTTPError(529, 'limit-' + m)
 
+    @app.route('/fixed', method=['GET', 'POST'])
+    def fixed():
+        # every request of this kind has the same URL; the request-specific data is in headers, cookies and body only
+        rq = app.request
+        hm = rq.headers.get('X-M') or '?'
+        note('fixed:hdr', hm)
+        note('fixed:cookie', rq.cookies.get('c'))
+        note('fixed:auth', rq.auth)
+        if rq.method == 'POST':
+            note('fixed:form', rq.forms.get('f'))
+        app.response.headers['X-R'] = 'r' + hm
+        app.response.set_cookie('rc', 'k' + hm)
+        if rq.headers.get('X-Fail') == '1':
+            raise ombott.HTTPError(409, 'conflict-' + hm)
+        return 'fixed-' + hm
+
     @app.route('/boom')
     def boom():
         # same URL for every request of this kind; what differs is a request header only
